@@ -267,7 +267,17 @@ def _resp_default(ty):
     raise Unsupported(ty)
 
 
+_WRAP = {"BankMsg": "Bank", "WasmMsg": "Wasm", "StakingMsg": "Staking", "DistributionMsg": "Distribution", "IbcMsg": "Ibc", "GovMsg": "Gov"}
+
+
+def into_cosmos(v):
+    """impl Into<CosmosMsg> for the module message enums"""
+    if isinstance(v, EnumV) and v.ty in _WRAP: return EnumV("CosmosMsg", _WRAP[v.ty], (v,))
+    return v
+
+
 def submsg(msg, id=0, reply_on="Never", gas_limit=NONE):
+    msg = into_cosmos(msg)
     return Struct("SubMsg", [id, VecV([]), msg, gas_limit, EnumV("ReplyOn", reply_on)], ["id", "payload", "msg", "gas_limit", "reply_on"])
 
 
